@@ -9,20 +9,17 @@ import LettreVerif.Proofs.Peg
 Proved here: the header map part (lookup, replacement and removal are case-insensitive, one
 entry per name), the Date arithmetic round trip for every instant (`date_roundtrip`: the civil
 fields the header shows are mapped back to the same second; the calendar fields are in range and
-the weekday is the right one), and the **mailbox grammar round trip for the address**: for every
+the weekday is the right one), and the **mailbox grammar round trip**: for every
 mailbox whose address is `dot-atom@dot-atom` (`GoodAddr`: no quoted local part, no domain literal)
 and *every* display name, what `Display` writes is parsed back by the PEG transcription of the
-grammar to a mailbox with the same address (`mailbox_address_roundtrip`), and a displayed list
-parses back to the same addresses in the same order (`mailbox_list_roundtrip`); every display name,
-written as atoms or as a quoted string, is consumed as one phrase (`display_name_is_one_phrase`).
-What is *not* proved and is tied by the correspondence check only: that the name read back equals
-the name stored (up to `normName`), and addresses outside the class (quoted local parts, literals):
-
-    theorem mailbox_roundtrip (m : MBox) : parse1 e (show1 m) = some ⟨normName m.name, m.email⟩
-
-(the model's `show` and the PEG transcription are each compared with the code, and the property
-itself — display then parse gives an equal value — is evaluated on every generated value; the
-check also reports for every real mailbox whether its address is in the proved class).
+grammar to an equal mailbox — the same address, and a name that normalises to the stored one
+(`mailbox_roundtrip`; the grammar returns the name with every run of blanks reduced to its first
+blank: `display_name_is_one_phrase`) — and a displayed list parses back to equal mailboxes in the
+same order (`mailbox_list_roundtrip`).  What is *not* proved and is tied by the correspondence check
+only: addresses outside the class (quoted local parts, domain literals); the check reports for every
+real mailbox whether its address is in the proved class.  The model's `show` and the PEG
+transcription are each compared with the code, and the property itself — display then parse gives an
+equal value — is evaluated on every generated value.
 -/
 namespace LV.C17
 open LV LV.Headers
@@ -110,32 +107,37 @@ example : Date.render (Date.civil 784887151) = "Tue, 15 Nov 1994 08:12:31 +0000"
 
 /-! ## the mailbox grammar -/
 open LV.Mailbox LV.PegProof in
-/-- **Display then parse returns the same address, whatever the name.** For every mailbox whose address is in the
+/-- **Display then parse returns an equal mailbox, whatever the name.** For every mailbox whose address is in the
     class (`local@domain`, both sides dot-atoms of the grammar, accepted by `Address::new`): `Display` does not fail,
     and `FromStr` (the grammar, then `Address::new` on the two parts) reads the text back as a mailbox with exactly
-    that address.  The name is arbitrary: any characters, including quotes, backslashes, CR, LF and NUL. -/
-theorem mailbox_address_roundtrip (e : Address.Env) (m : MBox) (hg : GoodAddr e m.email) :
-    ∃ t m', show1 m = some t ∧ parse1 e t = some m' ∧ m'.email = m.email := by
+    that address and a name equal to the stored one up to `normName` (surrounding white space, the length of runs of
+    blanks, an empty name = no name).  The name is arbitrary: any characters, including quotes, backslashes, commas,
+    angle brackets, CR, LF and NUL. -/
+theorem mailbox_roundtrip (e : Address.Env) (m : MBox) (hg : GoodAddr e m.email) :
+    ∃ t m', show1 m = some t ∧ parse1 e t = some m' ∧ m'.email = m.email ∧ normName m'.name = normName m.name := by
   obtain ⟨t, ht⟩ := LV.Builder.showList_some [m]
   simp only [showList] at ht
-  obtain ⟨m', h1, h2⟩ := parse1_show1 e m t hg ht
-  exact ⟨t, m', ht, h1, h2⟩
+  obtain ⟨m', h1, h2, h3⟩ := parse1_show1 e m t hg ht
+  exact ⟨t, m', ht, h1, h2, h3⟩
 
 open LV.Mailbox LV.PegProof in
-/-- **A displayed list parses back to the same addresses in the same order** — no mailbox lost, duplicated, merged
+/-- **A displayed list parses back to equal mailboxes in the same order** — no mailbox lost, duplicated, merged
     with a neighbour or reordered, whatever the names (a name containing `,` or `<` is written quoted and is read as
     one phrase). -/
 theorem mailbox_list_roundtrip (e : Address.Env) (l : List MBox) (hne : l ≠ []) (hg : ∀ m ∈ l, GoodAddr e m.email) :
-    ∃ t l', showList l = some t ∧ parseList e t = some l' ∧ l'.map (·.email) = l.map (·.email) := by
+    ∃ t l', showList l = some t ∧ parseList e t = some l' ∧ l'.map (·.email) = l.map (·.email) ∧
+      l'.map (fun m => normName m.name) = l.map (fun m => normName m.name) := by
   obtain ⟨t, ht⟩ := LV.Builder.showList_some l
-  obtain ⟨l', h1, h2⟩ := parseList_showList e l t hne hg ht
-  exact ⟨t, l', ht, h1, h2⟩
+  obtain ⟨l', h1, h2, h3⟩ := parseList_showList e l t hne hg ht
+  exact ⟨t, l', ht, h1, h2, h3⟩
 
 open LV.Mailbox LV.PegProof LV.Peg in
 /-- **Every display name is written as text the grammar reads as one phrase**, up to the ` <` before the address:
-    atoms when every character allows it, a quoted string with quoted-pairs otherwise. -/
+    atoms when every character allows it, a quoted string with quoted-pairs otherwise; what is read is the name with
+    each run of SP / HTAB reduced to its first character (`cfg`). -/
 theorem display_name_is_one_phrase (n rest : List Char) (hne : trim n ≠ []) :
-    ∃ t v, writeWord true (trim n) = some t ∧ phrase opts (t ++ ' ' :: '<' :: rest) = some (v, ' ' :: '<' :: rest) :=
+    ∃ t, writeWord true (trim n) = some t ∧
+      phrase opts (t ++ ' ' :: '<' :: rest) = some (cfg false (trim n), ' ' :: '<' :: rest) :=
   display_name_read_back n rest hne
 
 open LV.Mailbox LV.PegProof in
